@@ -39,7 +39,9 @@ class C04(Property):
     rule = ("REST: scripts of 0..7 actions (header set/add/del, WriteHeader incl. invalid codes, Write chunks, ctx check, panic), "
             "D = none | cancel | real timeout / parent deadline | race at EVERY script position, plus websocket/SSE/zero-timeout "
             "exemptions; sequences of 2-3 requests through ONE TimeoutHandler instance with the first handler abandoned at its "
-            "timeout and released at every position of the later request's life; zRPC server + fx: work scripts with D at every position; client interceptor and rest engine: timeout "
+            "timeout and released at every position of the later request's life; the same for 2-3 calls through one "
+            "UnaryTimeoutInterceptor instance / fx.DoWithTimeout (abandoned work returns or panics while a later call is in "
+            "flight, later call cancelled or with its own 3 ms deadline, half under GOMAXPROCS(1)); zRPC server + fx: work scripts with D at every position; client interceptor and rest engine: timeout "
             "selection. Non-trivial = D fired strictly inside the script (not before the first or after the last action) and "
             "the script writes at least one body chunk or header, or (slot) D fired while the work was running; distinct = "
             "canonical JSON hash of the input")
@@ -121,7 +123,7 @@ class C04(Property):
 
     def gen(self, rng, n, tier):
         cases = []
-        n_rest = n if not self._slots_enabled() else (n * 45) // 100
+        n_rest = n if not self._slots_enabled() else (n * 40) // 100
         n_seq = (n * 20) // 100
         while len(cases) < n_rest:
             script = self._script(rng)
@@ -148,6 +150,7 @@ class C04(Property):
                 cases.append(self._rest(script, h0, "cancel", pos, dur=rng.choice([0, -5]), parent=par))
         cases = cases[:max(n_rest, 1)]
         cases += self._gen_seq(rng, n_seq)
+        cases += self._gen_sseq(rng, (n * 12) // 100)
         if self._slots_enabled():
             cases += self._gen_slots(rng, n - len(cases))
         return cases
@@ -219,6 +222,75 @@ class C04(Property):
                 r3 = reqs + [{"h0": [], "script": c3}]
                 cases.append(self._seq(r3, head + bseq[:2] + late[:1] + bseq[2:] + [["start", 2]] + late[1:2]
                                        + [["H", 2]] * (len(c3) + 1) + late[2:]))
+        return cases[:n]
+
+    # sequences of calls through one interceptor instance / fx ----------------------
+    def _call(self, rng, who, abandoned, parent=None):
+        base = 10 * (who + 1)
+        if abandoned:
+            steps = ["work"] * rng.choice([0, 1, 1, 2])          # ignores its context
+        else:
+            steps = [rng.choice(["work", "work", "chk"]) for _ in range(rng.choice([0, 1, 2, 3]))]
+        r = rng.random()
+        if r < 0.3:
+            fin = ["panic", base + 5]
+        elif r < 0.65:
+            fin = ["ret", base + 1, 0]
+        else:
+            fin = ["ret", rng.choice([0, base + 1]), base + 2]
+        return {"steps": steps, "bail": [0, base + 4], "fin": fin, "parent_ns": parent}
+
+    def _sseq(self, kind, calls, order):
+        calls = copy.deepcopy(calls)
+        if kind == "fxseq":
+            for cl in calls:                 # fx returns only an error; fn sees only the caller's context
+                if cl["fin"][0] == "ret":
+                    cl["fin"][1] = 0
+                    if cl["fin"][2] == 0:
+                        cl["fin"][2] = cl["bail"][1] - 2
+        c = {"kind": kind, "dur_ns": HOUR, "calls": calls, "order": order}
+        c["procs"] = int(vlib.canon_hash(c), 16) % 2
+        return c
+
+    def _gen_sseq(self, rng, n):
+        cases = []
+        while len(cases) < n:
+            kind = "zseq" if rng.random() < 0.7 else "fxseq"
+            a = self._call(rng, 0, True)
+            b_dl = rng.random() < 0.35                       # B has an own short deadline
+            b = self._call(rng, 1, False, parent=SHORT if b_dl else None)
+            calls = [a, b]
+            ka = rng.randint(0, len(a["steps"]))
+            head = [["start", 0]] + [["H", 0]] * ka + [["D", 0]]
+            late = [["H", 0]] * (len(a["steps"]) + 1 - ka)
+            nb = len(b["steps"]) + 1
+            if b_dl:
+                kb = rng.randint(0, nb - 1)
+                bseq = [["start", 1]] + [["H", 1]] * kb + [["T", 1]] + [["H", 1]] * (nb - kb)
+            else:
+                bseq = [["start", 1]] + [["H", 1]] * nb
+            for p in range(len(bseq) + 1):
+                cases.append(self._sseq(kind, calls, head + bseq[:p] + late + bseq[p:]))
+            if not b_dl:
+                p = rng.randint(1, len(bseq))
+                cases.append(self._sseq(kind, calls, head + bseq[:p] + [["D", 1]] + late[:1] + bseq[p:] + late[1:]))
+            # both in flight from the start
+            xs = [["H", 0]] * (len(a["steps"]) + 1)
+            b2 = dict(b, parent_ns=None)
+            ys = [["H", 1]] * nb
+            merged = []
+            while xs or ys:
+                src = xs if (xs and (not ys or rng.random() < 0.5)) else ys
+                merged.append(src.pop())
+            merged.insert(rng.randint(0, len(merged)), ["D", 0])
+            cases.append(self._sseq(kind, [a, b2], [["start", 0], ["start", 1]] + merged))
+            # three calls: two abandoned works signal while the third is in flight
+            a2 = self._call(rng, 2, True)
+            c3 = [a, a2, dict(b, parent_ns=None)]
+            o3 = ([["start", 0]] + [["H", 0]] * len(a["steps"]) + [["D", 0]] +
+                  [["start", 1]] + [["H", 1]] * len(a2["steps"]) + [["D", 1]] +
+                  [["start", 2], ["H", 2], ["H", 0], ["H", 1]] + [["H", 2]] * nb)
+            cases.append(self._sseq(kind, c3, o3))
         return cases[:n]
 
     def _slots_enabled(self):
@@ -341,7 +413,15 @@ class C04(Property):
             if rc != 0:
                 raise ExecError("c04 executor rc=%s: %s" % (rc, out[-2000:]))
             return res
-        if kind == "zrpc":
+        run = "^TestVerifC04$"
+        if kind == "fxseq":
+            rc, out, res = vlib.go_run(self.bin, sub, tag="c04" + kind, timeout=900)
+            if rc != 0:
+                raise ExecError("c04 executor rc=%s: %s" % (rc, out[-2000:]))
+            return res
+        if kind in ("zrpc", "zseq"):
+            if kind == "zseq":
+                run = "^TestVerifC04Seq$"
             pkg, d = "./zrpc/internal/serverinterceptors", "zrpc/internal/serverinterceptors"
             files = {d + "/verif_c04_test.go": os.path.join(OV, "serverinterceptors", "verif_c04_test.go"),
                      d + "/verif_c04_slotctl_test.go": self._slotctl_copy("serverinterceptors")}
@@ -353,7 +433,7 @@ class C04(Property):
             files = {"rest/verif_c04_test.go": os.path.join(OV, "rest", "verif_c04_test.go")}
         else:
             raise ExecError("c04: unknown case kind %s" % kind)
-        rc, out, res = vlib.go_test_overlay(pkg, files, run="^TestVerifC04$", cases=sub, tag="c04" + kind, timeout=900)
+        rc, out, res = vlib.go_test_overlay(pkg, files, run=run, cases=sub, tag="c04" + kind, timeout=900)
         if rc != 0:
             raise ExecError("c04 %s overlay test rc=%s: %s" % (kind, rc, out[-2500:]))
         return res
@@ -388,7 +468,7 @@ class C04(Property):
                           if a[0] in ("set", "add", "del", "w") or (a[0] == "wh" and a[1] in CODES)]
                 free.append({"id": i, "kind": "free", "req": "plain", "dur_ns": 0, "parent_ns": None,
                              "h0": self._h0(rng), "script": script, "d": {"mode": "none", "pos": 1500}})
-            forced = [c for c in self.gen(rng, 400, "thorough") if c["kind"] in ("rest", "fx", "seq")]
+            forced = [c for c in self.gen(rng, 400, "thorough") if c["kind"] in ("rest", "fx", "seq", "fxseq")]
             for j, c in enumerate(forced):
                 c["id"] = 1000 + j
             rc, out, rs = vlib.go_run(res, free + forced, tag="c04race", timeout=1200)
@@ -493,6 +573,8 @@ class C04(Property):
             return self._coq_slot(case, obs)
         if k == "seq":
             return self._coq_seq(case, obs)
+        if k in ("zseq", "fxseq"):
+            return self._coq_sseq(case, obs)
         if k == "client":
             return "CClient (mkClient %s %s %s %s %s %s %s)" % (
                 clist([cz(x) for x in case["opts"]]), cz(case["default_ns"]), self._optz(case["parent_ns"]),
@@ -521,6 +603,31 @@ class C04(Property):
         sched = clist(["(%d%%nat, %s)" % (i, self._ev(e)) for i, e in o["sched"]])
         hobs = clist(["(%d%%nat, %s)" % (x[0], self._ares(x[1:])) for x in o["hobs"]])
         return "CSeq (mkSeq %s %s %s %s %s)" % (cz(c["dur_ns"]), clist(rs), sched, hobs, cz(o["ret_at_d"]))
+
+    def _coq_sseq(self, c, o):
+        dk = {}
+        for e in c["order"]:
+            if e[0] in ("D", "T") and e[1] not in dk:
+                dk[e[1]] = "KCancel" if e[0] == "D" else "KDeadline"
+        for i, e in o["sched"]:                       # a timer seen before its "T" event
+            if e in ("Dc", "Dd") and i not in dk:
+                dk[i] = "KCancel" if e == "Dc" else "KDeadline"
+        cs = []
+        for i, (cin, co) in enumerate(zip(c["calls"], o["calls"])):
+            fin = cin["fin"]
+            wfin = "(WRet %s %s)" % (cz(fin[1]), cz(fin[2])) if fin[0] == "ret" else "(WPanic %s)" % cz(fin[1])
+            script = "(mkW %s (%s, %s) %s)" % (clist(["WCheck" if x == "chk" else "WWork" for x in cin["steps"]]),
+                                              cz(cin["bail"][0]), cz(cin["bail"][1]), wfin)
+            # a call with an own deadline may be ended by it even if the controller never waited for it
+            dmode = dk.get(i) or ("KDeadline" if cin["parent_ns"] is not None else None)
+            cs.append("(mkSC %s)" % " ".join([
+                script, copt(dmode), self._optz(cin["parent_ns"]), cbool(co["ret"]),
+                self._optz(co["pval"] if co["panicked"] else None), cbool(co["stack"]), cz(co["r"]), cz(co["e"]),
+                self._optz(co["dl_seen_ns"] if co["has_dl"] else None), cz(co["t1_ns"])]))
+        sched = clist(["(%d%%nat, %s)" % (i, self._ev(e)) for i, e in o["sched"]])
+        hobs = clist(["(%d%%nat, %s)" % (x[0], self._ares(x[1:])) for x in o["hobs"]])
+        return "CSSeq (mkSSeq %s %s %s %s %s %s)" % ("0" if c["kind"] == "zseq" else "1", cz(c["dur_ns"]),
+                                                    clist(cs), sched, hobs, cz(o["ret_at_d"]))
 
     def _coq_slot(self, c, o):
         fin = c["fin"]
@@ -597,6 +704,20 @@ class C04(Property):
             later = s[first_t + 1:]
             return any(e[0] == i and e[1] == "H" for e in later) and any(e[0] != i and e[1] == "H" for e in later) \
                 and any(x[0] == i and x[1] == "wto" for x in obs["hobs"])
+        if case["kind"] in ("zseq", "fxseq"):
+            # a timed-out call's work ended (returned / panicked) while another call was in flight
+            s = obs["sched"]
+            for j, e in enumerate(s):
+                if e[1] == "St":
+                    i = e[0]
+                    ended = [t for t in range(j + 1, len(s)) if s[t][0] == i and s[t][1] == "H"]
+                    if ended:
+                        t = ended[-1]
+                        others = set(x[0] for x in s[:t] if x[0] != i and x[1] == "H")
+                        done = set(x[0] for x in s[:t] if x[1] in ("Sd", "Sp", "St"))
+                        if others - done:
+                            return True
+            return False
         if case["kind"] in ("zrpc", "fx"):
             return case["d"]["mode"] != "none" and 0 < case["d"]["pos"] <= len(case["steps"])
         if case["kind"] == "client":
@@ -627,6 +748,13 @@ class C04(Property):
                 fs.append("rest:has_ctx_check")
             if any(a[0] == "panic" for a in case["script"]):
                 fs.append("rest:has_panic")
+        if case["kind"] in ("zseq", "fxseq"):
+            k = case["kind"]
+            fs.append(k + ":calls=%d" % len(case["calls"]))
+            fs.append(k + ":procs=%d" % case["procs"])
+            for i, cl in enumerate(obs["calls"]):
+                fs.append("%s:call%d=%s" % (k, i, "panic" if cl["panicked"] else
+                                            ("timeout" if cl["e"] in (-1, -2) and cl["r"] == 0 else "result")))
         if case["kind"] == "seq":
             fs.append("seq:reqs=%d" % len(case["reqs"]))
             for i, r in enumerate(obs["reqs"]):
@@ -684,6 +812,25 @@ class C04(Property):
                 c["reqs"] = c["reqs"][:2]
                 c["order"] = [e for e in c["order"] if e[1] < 2]
                 res.append(c)
+        if case["kind"] in ("zseq", "fxseq"):
+            for i, cl in enumerate(case["calls"]):
+                for j in range(len(cl["steps"])):
+                    c = copy.deepcopy(case)
+                    c["calls"][i]["steps"] = cl["steps"][:j] + cl["steps"][j + 1:]
+                    idx = [t for t, e in enumerate(c["order"]) if e == ["H", i]]
+                    if idx:
+                        del c["order"][idx[-1]]
+                    res.append(c)
+            if len(case["calls"]) > 2:
+                for drop in range(len(case["calls"])):
+                    c = copy.deepcopy(case)
+                    del c["calls"][drop]
+                    c["order"] = [[e[0], e[1] - (1 if e[1] > drop else 0)] for e in c["order"] if e[1] != drop]
+                    res.append(c)
+            if case.get("procs"):
+                c = copy.deepcopy(case)
+                c["procs"] = 0
+                res.append(c)
         if case["kind"] in ("zrpc", "fx"):
             st = case["steps"]
             for j in range(len(st)):
@@ -713,6 +860,10 @@ class C04(Property):
             return ("several requests through one TimeoutHandler: a request's response is not all-or-nothing w.r.t. its "
                     "OWN script (something of another request's abandoned handler appears), or a late write of the "
                     "abandoned handler was accepted, or its timeout reply changed")
+        if case["kind"] in ("zseq", "fxseq"):
+            return ("several calls through one timeout interceptor / fx: a call returned something that is not its own "
+                    "result, its own timeout error or its own panic (a signal of another call's abandoned work reached it), "
+                    "or did not return at its own deadline, or never returned")
         return "timeout wrapper: outcome is not all-or-nothing / deadline not shrunk / wrapper did not return at the deadline"
 
 
